@@ -154,6 +154,9 @@ func (this *UTFCodec) Forward(src, dst []byte) (uint, uint, error) {
 		s := packUTF(src[i:], &val)
 		res := s != 0
 		// Validation of longer sequences
+		// Second byte in [0x80..0xBF] (the last symbols of the block extend
+		// beyond the range that was validated above)
+		res = res && ((s < 2) || ((src[i+1] & 0xC0) == 0x80))
 		// Third byte in [0x80..0xBF]
 		res = res && ((s != 3) || ((src[i+2] & 0xC0) == 0x80))
 		// Third and fourth bytes in [0x80..0xBF]
